@@ -709,7 +709,10 @@ def rule_rejections(facts):
                      if not (t[0] == "discr" and isinstance(t[1], tuple) and t[1] and t[1][0] == "try")]
             why = None
             # the test that decides this rejection: the innermost of the dominating ones
-            conds.sort(key=lambda x: sum(1 for y in conds if c.dominates(y[0], x[0])))
+            # (sorted() of a copy: a list is empty while list.sort() runs, so an in-place sort whose key reads the list keeps block order -
+            # which is dominance order only as long as no helper body is spliced in behind the caller's own blocks)
+            allc = list(conds)
+            conds = sorted(allc, key=lambda x: sum(1 for y in allc if c.dominates(y[0], x[0])))
             inner = conds[-1] if conds else None
             if inner is not None:
                 # ... and really the last one: no further test (a `||` chain, a nested if) between it and the error
